@@ -316,6 +316,9 @@ func coop(bound int) (execs int, outcomes map[string]int) {
 		{"lookup-current+next vs append-two", []int{1, 2}, [][]int{{1, 2}}, false},
 		{"current-set reader vs append-next", nil, [][]int{{1}}, true},
 		{"lookup-next vs two appenders", []int{1}, [][]int{{1}, {1, 2}}, false},
+		{"two appenders, overlapping batches", nil, [][]int{{1}, {1, 2}}, true},
+		{"two appenders, same batch", nil, [][]int{{1, 2}, {1, 2}}, false},
+		{"three appenders", nil, [][]int{{1}, {1, 2}, {2, 3}}, false},
 	}
 	for _, c := range cases {
 		c := c
@@ -325,10 +328,12 @@ func coop(bound int) (execs int, outcomes map[string]int) {
 			idx int
 		}
 		var results []*res
+		var cur *guardiansets.GuardianSets
 		mk := func() []func() {
 			gsC := make(chan *common.GuardianSet, 1024)
 			gs := guardiansets.NewGuardianSets([]*common.GuardianSet{mkSet(0), mkSet(1)}, "/nonexistent/verif.ipc", zap.NewNop(), time.Hour, ethcommon.Address{}, gsC)
 			results = nil
+			cur = gs
 			var bodies []func()
 			for _, off := range c.Readers {
 				rr := &res{idx: 1 + off}
@@ -349,7 +354,7 @@ func coop(bound int) (execs int, outcomes map[string]int) {
 			}
 			return bodies
 		}
-		n := vsched.Explore(mk, bound, func(e *vsched.Exec) {
+		chk := func(e *vsched.Exec) {
 			rec := map[string]interface{}{"case": c.Name, "schedule": e.Choices, "trace": e.Trace}
 			if e.Deadlock || e.Livelock {
 				r.Violation("deadlock or livelock between guardian-set lookup and append", c.Name, rec)
@@ -370,6 +375,18 @@ func coop(bound int) (execs int, outcomes map[string]int) {
 					return
 				}
 			}
+			// after all threads have finished: the set stored at position i is the set with index i, and the
+			// current index is the last position (appends of concurrent appenders must compose)
+			lst, ci := cur.VerifList(), cur.VerifCurrentIndex()
+			okList := ci == len(lst)-1
+			for i, ix := range lst {
+				okList = okList && int(ix) == i
+			}
+			if !okList {
+				r.Violation("after concurrent appends the guardian-set list no longer maps index i to the set with index i", fmt.Sprintf("%s: stored indices %v, current %d  trace: %s", c.Name, lst, ci, strings.Join(e.Trace, " ")), rec)
+				outcomes["corrupted-list"]++
+				return
+			}
 			for _, rr := range results {
 				switch {
 				case rr.idx >= 0 && rr.set != nil && int(rr.set.Index) != rr.idx:
@@ -385,12 +402,32 @@ func coop(bound int) (execs int, outcomes map[string]int) {
 					outcomes[fmt.Sprintf("current=%d", rr.set.Index)]++
 				}
 			}
-		})
-		execs += n
-		r.Sample(map[string]interface{}{"interleaving_case": c.Name, "preemption_bound": bound, "schedules": n})
+		}
+		if bound >= 0 {
+			n := vsched.Explore(mk, bound, chk)
+			execs += n
+			completed[c.Name] = bound
+			r.Sample(map[string]interface{}{"interleaving_case": c.Name, "preemption_bound": bound, "schedules": n})
+			continue
+		}
+		// thorough: iterate the preemption bound 0,1,2,... until a bound no longer completes within the
+		// execution budget; the last COMPLETED bound is what is claimed for the case
+		completed[c.Name] = -1
+		for b := 0; b <= 12; b++ {
+			n, complete := vsched.ExploreBudget(mk, b, 400000, chk)
+			execs += n
+			if !complete {
+				r.Sample(map[string]interface{}{"interleaving_case": c.Name, "preemption_bound": b, "schedules": n, "complete": false})
+				break
+			}
+			completed[c.Name] = b
+			r.Sample(map[string]interface{}{"interleaving_case": c.Name, "preemption_bound": b, "schedules": n, "complete": true})
+		}
 	}
 	return
 }
+
+var completed = map[string]int{}
 
 func trimAddr(s string) string {
 	if i := strings.Index(s, "0x"); i > 0 {
@@ -423,7 +460,7 @@ func main() {
 	r.Add("transitions", execs)
 	r.Set("interleaving_schedules", execs)
 	r.Set("interleaving_outcomes", outcomes)
-	r.Set("preemption_bound", bound)
+	r.Set("preemption_bound_completed_per_case", completed)
 	if exe := os.Getenv("VERIF_RACE_EXE"); exe != "" {
 		rctx, rcancel := context.WithTimeout(context.Background(), 5*time.Minute) // harness safety only
 		cmd := exec.CommandContext(rctx, exe)
@@ -444,7 +481,7 @@ func main() {
 			r.Violation("data race between guardian-set lookup and append (free-running -race pass)", string(out[i:j]), nil)
 		}
 	}
-	r.Set("rule", "sequential part: state key = (current index, Index field of the set at every list position, queue length, number of ids handed off); interleaving part: every schedule of the thread bodies with scheduling points before every statement of gst_data.go and at the lock shim, preemption bound 2 (thorough: unbounded)")
+	r.Set("rule", "sequential part: state key = (current index, Index field of the set at every list position, queue length, number of ids handed off); interleaving part: every schedule of the thread bodies with scheduling points before every statement of gst_data.go and at the lock shim, preemption bound 2 (thorough: the bound is raised 0,1,2,... per case until a bound exceeds 400000 executions; the completed bound per case is reported)")
 	r.Assume("production backs the deduplicator with ristretto (asynchronous, lossy); the harness uses the synchronous go-cache store as the repository's own test does; suppression of a handed-off id is reported, not judged")
 	r.Assume("a lookup of a not yet known index fails at the dial (ipc path that does not exist)")
 	r.Assume("memory-model effects below statement granularity are covered only by the free-running -race pass (thorough)")
